@@ -94,6 +94,11 @@ func drawHistory(t *rapid.T, set PSetting, label string, allowFail bool) History
 		}
 		h.Hdr.OS = byte(rapid.IntRange(0, 255).Draw(t, label+"_os"))
 	}
+	if allowFail && set.Pkg == "gzip" && rapid.IntRange(0, 19).Draw(t, label+"_badhdr") == 0 {
+		// "a failed write" of another kind: the header cannot be written (non-Latin-1 name): the Writer
+		// has emitted the first 10 header bytes and has no compressor yet when it is Reset
+		h.Hdr = &GzHdr{Name: "n\u0100me"}
+	}
 	return h
 }
 
@@ -120,6 +125,35 @@ func drawC12(t *rapid.T) C12Case {
 				last.Ops = append(last.Ops, gen.Op{K: "C"})
 			}
 		}
+	}
+	if rapid.IntRange(0, 7).Draw(t, "replay") == 0 && len(c.Before) > 0 && c.Before[len(c.Before)-1].Data.Len() > 0 {
+		// "replay": the later stream is the earlier data again (a prefix of it), written in small pieces
+		// with Flushes: whatever the Writer's buffers still hold beyond the new end of data is the true
+		// continuation of the new data - an over-read past the end would find plausible bytes
+		last := c.Before[len(c.Before)-1]
+		n := rapid.IntRange(1, last.Data.Len()).Draw(t, "replay_n")
+		if n > 20000 {
+			n = 20000
+		}
+		data := gen.Recipe{Segs: []gen.Seg{{Kind: "raw", N: n, Raw: last.Data.Bytes()[:n]}}}
+		var ops []gen.Op
+		for rem := n; rem > 0; {
+			k := rapid.IntRange(1, 300).Draw(t, "replay_w")
+			if k > rem {
+				k = rem
+			}
+			ops = append(ops, gen.Op{K: "W", N: k})
+			rem -= k
+			if rapid.IntRange(0, 3).Draw(t, "replay_f") == 0 {
+				ops = append(ops, gen.Op{K: "F"})
+			}
+			if len(ops) > 120 {
+				ops = append(ops, gen.Op{K: "W", N: rem})
+				rem = 0
+			}
+		}
+		ops = append(ops, gen.Op{K: "C"})
+		c.After = History{Data: data, Ops: ops}
 	}
 	if rapid.IntRange(0, 5).Draw(t, "echo") == 0 {
 		// "echo" mode: a tiny earlier stream (every piece shorter than 16 bytes) and a later stream that
